@@ -539,8 +539,8 @@ structure ETags where
   star : Bool
   deriving DecidableEq
 
-/-- the `while pos < end` loop of `parse_etags`; elements are `none` for Python's `None`
-(an empty quoted tag `""` leaves `raw` as `None`) -/
+/-- the `while pos < end` loop of `parse_etags` (elements are `Option` for Python's `str | None`;
+since the repair that keeps the empty tag `""` every stored element is a string) -/
 def parseEtagsGo : Nat → Str → List (Option Str) → List (Option Str) → ETags
   | 0, _, strong, weak => ⟨strong.reverse, weak.reverse, false⟩
   | fuel + 1, s, strong, weak =>
@@ -549,9 +549,10 @@ def parseEtagsGo : Nat → Str → List (Option Str) → List (Option Str) → E
     | none => ⟨strong.reverse, weak.reverse, false⟩
     | some (isWeak, quoted, raw, rest) =>
       if raw == some ['*'] then ⟨[], [], true⟩ else
+      -- `elif quoted is not None: raw = quoted`
       let raw := match quoted with
-        | some (c :: q) => some (c :: q)
-        | _ => raw
+        | some q => some q
+        | none => raw
       if isWeak then parseEtagsGo fuel rest strong (raw :: weak)
       else parseEtagsGo fuel rest (raw :: strong) weak
 
@@ -604,7 +605,10 @@ def rangeItems : List Str → Int → List (Int × Option Int) → Except String
       if lastEnd < 0 then return none
       match ← catching ["ValueError"] ((plainInt item).map some) none with
       | none => return none
-      | some b => rangeItems more (-1) ((b, none) :: acc)
+      | some b =>
+        -- a suffix length of zero selects nothing
+        if b == 0 then return none
+        rangeItems more (-1) ((b, none) :: acc)
     | _ =>
       let (bs, _, es) := partition '-' item
       let bs := strip bs
@@ -947,5 +951,29 @@ def parseAcceptHeader (value : Str) : Except String (List (Str × Str)) := do
   if value.isEmpty then return []
   let items ← (parseListHeader value).mapM acceptItem
   return items.filterMap id
+
+/-! ### lazily parsed `Request` attributes (the descriptor layer) -/
+
+/-- `_DictAccessorProperty.__get__`: missing key ⇒ default; otherwise `load_func(value)` with
+`(ValueError, TypeError)` turned into the default -/
+def headerProperty {α : Type} (load : Str → Except String α) (dflt : α) (hdr : Option Str) : Except String α :=
+  match hdr with
+  | none => .ok dflt
+  | some v => catching ["ValueError", "TypeError"] (load v) dflt
+
+/-- `Request.max_forwards` = `header_property("Max-Forwards", None, int)` -/
+def requestMaxForwards (hdr : Option Str) : Except String (Option Int) :=
+  headerProperty (fun v => (pyInt v).map some) none hdr
+
+/-- `sansio.utils.get_content_length` (`Request.content_length`) -/
+def getContentLength (contentLength transferEncoding : Option Str) : Except String (Option Int) :=
+  if transferEncoding == some "chunked".toList then .ok none else
+  match contentLength with
+  | none => .ok none
+  | some v => catching ["ValueError"] ((plainInt v).map fun n => some (if n < 0 then 0 else n)) (some 0)
+
+/-- `Request.access_control_request_headers` = `header_property(..., load_func=parse_set_header)` -/
+def requestAccessControlRequestHeaders (hdr : Option Str) : Except String (Option (List Str)) :=
+  headerProperty (fun v => .ok (some (parseSetHeader v))) none hdr
 
 end Wz.Http
